@@ -20,6 +20,8 @@ func zeroOf(t types.Type) string {
 		return "Go.Err.nil"
 	case lt == "Go.BigInt" || lt == "Go.BigRat":
 		return "(0 : " + lt + ")" // a nil pointer: never read (analyseBig checks definite assignment)
+	case lt == "Go.BigFloat":
+		return "Go.BigFloat.new" // a nil pointer: never read (analyseBig checks definite assignment)
 	case lt == "Go.BigWords":
 		return "(#[] : Go.BigWords)"
 	case isIntLean(lt):
